@@ -112,6 +112,17 @@ func runCsvCase(o *Oracle, c *CsvCase, rep *Report, valid string) {
 	}
 	pool := poolOf(rows)
 	r := NewRng(uint64(len(rows)) + 17)
+	// every (column,value) pair of the first records is probed on its own: field contents preserved exactly
+	for ri := 0; ri < len(rows) && ri < 6; ri++ {
+		for k, v := range rows[ri] {
+			q := QCase{E: &Ex{Op: "E", C: hx(k), V: hx(v)}}
+			got, want := safeExecute(idx, toQuery(&q)), o.Ask("idx q "+q.Toks())
+			if got != want {
+				viol("C19:index-differs", "probe "+q.Toks()+" on the created index differs from the model", trunc(want, 300), got)
+				return
+			}
+		}
+	}
 	for k := 0; k < 12 && len(pool.cols) > 0; k++ {
 		q := QCase{E: genExpr(r, pool, 1+r.Intn(2), false), GB: genGroupBy(r, pool, false)}
 		if len(q.GB) > 3 {
@@ -212,6 +223,13 @@ func runC19(rep *Report, r *Rng, tier string) {
 			c2.Big = !c.Big
 			runCsvCase(o, &c2, rep, valid)
 		}
+	}
+	// corpus: prefix-related headers whose fields complete the same concatenation ("a"+"bx" = "ab"+"x")
+	for _, big := range []bool{false, true} {
+		c := &CsvCase{Big: big, Header: []string{hx("A"), hx("Ab"), hx("n")},
+			Records: [][]string{{hx("bx"), hx("y"), hx("1")}, {hx("q"), hx("x"), hx("2")}, {hx("bx"), hx("x"), hx("3")}, {hx("b"), "-", hx("4")}}}
+		runCsvCase(o, c, rep, valid)
+		rep.Count("corpus-concatenation")
 	}
 	for _, m := range malformedCSVs {
 		for _, big := range []bool{false, true} {
